@@ -412,7 +412,8 @@ def calculate_1d_frequencies(
     # Ensure correct binning
     bins = binning.bins  # bin_utils.make_bin_array(bins)
     if validate_bins:
-        if bins.shape[0] == 0:
+        if bins.shape[0] == 0 and not (binning.is_adaptive() and data.size == 0):
+            # (A still empty adaptive binning is fine as long as there is nothing to put in)
             raise ValueError("Cannot have histogram with 0 bins.")
         if not _bin_utils.is_rising(bins):
             raise ValueError("Bins must be rising.")
@@ -472,6 +473,8 @@ def calculate_1d_frequencies(
         frequencies[xbin] = weights_array[start:stop].sum()
         errors2[xbin] = (weights_array[start:stop] ** 2).sum()
 
+    if bins.shape[0] == 0 and data_array.size == 0:
+        underflow = overflow = 0
     # Underflow and overflow don't make sense for unconsecutive binning.
     if not _bin_utils.is_consecutive(bins):
         underflow = np.nan
